@@ -280,6 +280,7 @@ def o183(ctx):
 
 def _obligations():
     return [
+        Obligation("O18.20", "accessors of the particle list: get_coordinates = (x,y,z) + shifts, get_angles / get_rotations = the stored zxz angles, fill stores values as given (shared with C05)", _c05.accessors, floor=20),
         Obligation("O18.2", "row-space typing, same feature value, tree/query lists, distance/offset scaling, R_a^-1 frame, relative orientation, ids", o182, floor=25),
         Obligation("O18.3", "get_nn_stats: columns are the results of the two passes, same rows, same order (no re-sorting)", o183, floor=17),
         Obligation("O18.4", "complete positions: get_coordinates = (x,y,z) + shifts, nothing else (shared with C05)", _c05.o51, floor=9),
@@ -291,4 +292,4 @@ def _obligations():
 
 
 def obligations():
-    return _obligations() + [labels_obligation("C18"), selectors_obligation("C18"), effects_obligation("C18"), plumbing_obligation("C18"), overrides_obligation("C18"), options_obligation("C18")]
+    return _obligations() + [constructors_obligation(['cryomotl.Motl', 'cryomotl.EmMotl']), labels_obligation("C18"), selectors_obligation("C18"), effects_obligation("C18"), plumbing_obligation("C18"), overrides_obligation("C18"), options_obligation("C18")]
